@@ -149,6 +149,23 @@ pub open spec fn unset_post<'a>(m0: Map<String, Vec<VariableInContext>>, m1: Map
             && m1 =~= m0.insert(kk, m1[kk]) && unset_outcome(m0[kk]@, m1[kk]@, c, r)
 }
 
+/// the C string `c` was built from the name and the current value of a VISIBLE variable that is exported
+pub open spec fn env_entry_ok(m: Map<String, Vec<VariableInContext>>, c: std::ffi::CString) -> bool {
+    exists|n: String| #![trigger m.contains_key(n)] m.contains_key(n) && m[n]@.len() > 0 && m[n]@.last().variable.is_exported
+        && cstr_name(c) == n@ && m[n]@.last().variable.value == Some(cstr_value(c))
+}
+
+/// the stack of a name shows a variable to a scope that reaches down to context `min`: its visible (topmost)
+/// definition lies in context `min` or above
+pub open spec fn shown(st: Vec<VariableInContext>, min: usize) -> bool {
+    st@.len() > 0 && st@.last().context_index >= min
+}
+
+/// a stack after the contexts `n`, `n+1`, ... have been popped: a sorted stack loses at most its top entry
+pub open spec fn popped(st: Seq<VariableInContext>, n: int) -> Seq<VariableInContext> {
+    if st.len() > 0 && st.last().context_index >= n { st.drop_last() } else { st }
+}
+
 /// the part of a stack below context `ci`
 pub open spec fn below(st: Seq<VariableInContext>, ci: int) -> Seq<VariableInContext> {
     st.filter(|e: VariableInContext| e.context_index < ci)
